@@ -59,7 +59,7 @@ RULE = (
     "sources, outcome flags, multiset of answer shapes)")
 TRUSTED = ["xmlsec1 stand-in (harness/standin/xmlsec1.py)",
            "libc's calendar for the case's zone (time.mktime / time.localtime under TZ): the table of daylight-saving gaps in "
-           "the case (Model.f_gaps) is measured through it by harness.c11.zone_gaps, and re-measured in observe()", "metadata renderer and answer abstraction in harness/c11.py",
+           "the case (used by Corr.cls / Model.zone_v0 only) is measured through it by harness.c11.zone_gaps, and re-measured in observe()", "metadata renderer and answer abstraction in harness/c11.py",
            "stub http / requests objects (status_code, content)",
            "translator v2 (harness/py2coq2.py + Base/Py2.v; value semantics, no aliasing) for the functions re-translated on "
            "every run into coq/gen/C11Src2.v and proved equal to the model in C11/Source2.v: "
@@ -85,8 +85,8 @@ ASSUMPTIONS = [
     "signature verification is the stand-in's; its result enters the model as data (signature state of the case)",
     "load('inline', text) and load('local', file) have no certificate parameter: a certificate counts as configured only "
     "where the API accepts one (list-style items, remote, mdq)",
-    "finding C11-F8 (open): in a zone with daylight saving an MDQ entry whose expiration date falls into the skipped hour "
-    "is served up to an hour too long; the theorems about [cur] are proved for zones without such a gap (f_gaps = [])",
+    "the daylight-saving gaps of the case's zone are not an input of the model of the code now (7137d601: expiration dates "
+    "are computed in UTC); the table in the case serves only to recognise a regression of that commit (Corr.cls = 8)",
     "the finding class of a failing history is that of its FIRST failing position (heuristic attribution, Spec.query_class); "
     "detection does not depend on it: any deviation from the model is reported"]
 
